@@ -45,9 +45,10 @@ def p_simple(s):
         return ""
     k = s[0]
     if k == "yield":
-        return "Yield(%s)" % s[1]
+        # ("yield", e, "inst"): explicitly instantiated call
+        return ("Yield[int](%s)" if len(s) > 2 and s[2] == "inst" else "Yield(%s)") % s[1]
     if k == "yieldfrom":
-        return "YieldFrom(%s)" % s[1]
+        return ("YieldFrom[int](%s)" if len(s) > 2 and s[2] == "inst" else "YieldFrom(%s)") % s[1]
     if k == "decl":
         return "%s := %s" % (s[1], s[2])
     if k == "assign":
@@ -869,7 +870,7 @@ class RichSampler(Sampler):
     expressions in many syntactic forms"""
 
     EXTRA = {"VAR": 2, "MDEF": 2, "MASSIGN": 1, "SWI": 2, "TSW": 2, "FT": 1, "IIFE": 1, "CLO": 2, "RNG": 3, "YF": 2, "YX": 4, "IFI": 3, "ELSEBLK": 2, "GCH": 2,
-             "MCASE": 2, "TSWM": 2, "LDECL": 2, "COMMAOK": 2, "OPASSIGN": 2, "CHAN": 1, "EMPTY": 1, "FOR2": 2, "TAGLESS": 2, "FORNC": 2, "YPOST": 2}
+             "MCASE": 2, "TSWM": 2, "LDECL": 2, "COMMAOK": 2, "OPASSIGN": 2, "CHAN": 1, "EMPTY": 1, "FOR2": 2, "TAGLESS": 2, "FORNC": 2, "YPOST": 2, "YINST": 2}
 
     def __init__(self, rng, weights=None, max_depth=4):
         super().__init__(rng, weights, max_depth)
@@ -955,6 +956,12 @@ class RichSampler(Sampler):
             v = self.fresh("iv")
             txt = ["if %s {" % ctr.guard()] + p_stmts(body, 1) + ["} else if %s := %s; %s > %s {" % (v, e, v, rng.choice(vals))] + p_stmts([("effv", 8, v)] + b2, 1) + ["}"]
             return [("rawif", "\n".join(txt), [body, [("effv", 8, v)] + b2])]
+        if k == "YINST":
+            # the API functions called with explicit type arguments
+            if rng.random() < 0.7:
+                ctr.y += 1
+                return [("yield", "%s + %d" % (rng.choice(vals), ctr.y * 10), "inst")]
+            return [("yieldfrom", "H2(%s)" % rng.choice(vals), "inst")]
         if k == "YPOST":
             # loop whose post statement yields (or delegates); the body may continue / break
             i = self.fresh("yp")
